@@ -128,9 +128,29 @@ def _summarise_body(body, helpers=None):
                 s['params'] = ex.params
                 s['fallthrough'] = not ex.state.dead
             except sym.Unsupported as u:
-                s['unsupported'] = str(u)
-                s['events'] = ex.events
-                s['params'] = ex.params
+                # not walkable as written: the function alone is canonicalised (normalize.py: nested helper definitions inlined, match -> if,
+                # walrus, callable tables ...) and walked again; what is still not walkable is reported as such
+                ok2 = False
+                if os.environ.get('N2K_NO_NORMALIZE') != '1':
+                    try:
+                        import copy as _copy
+                        from . import normalize
+                        t2, _rep = normalize.normalize_module('pgns', ast.Module(body=[_copy.deepcopy(node)], type_ignores=[]), {})
+                        n2 = [x for x in t2.body if isinstance(x, (ast.FunctionDef, ast.AsyncFunctionDef)) and x.name == node.name]
+                        if n2:
+                            ex2 = sym.SymExec(n2[0], inline={k: v for k, v in (helpers or {}).items() if k != node.name})
+                            ex2.run()
+                            s['events'] = ex2.events
+                            s['params'] = ex2.params
+                            s['fallthrough'] = not ex2.state.dead
+                            s['canonicalised'] = True
+                            ok2 = True
+                    except (sym.Unsupported, RecursionError):
+                        ok2 = False
+                if not ok2:
+                    s['unsupported'] = str(u)
+                    s['events'] = ex.events
+                    s['params'] = ex.params
             s['effects'] = _effects(node)
             s['nstmts'] = sum(1 for _ in ast.walk(node) if isinstance(_, ast.stmt))
             out.append(s)
